@@ -177,10 +177,10 @@ CHECKS = {
     ),
     "C01": (
         "model_checking",
-        "CrossHair (z3) exhaustive exploration of an AST-first declaration grammar (8 form families x variations x 9 scopes x 7 ignored decorations; in the thorough tier ordered pairs of one representative per variation pool at global scope) on the real parser against independently built ParsedData, plus a type-conformance walk; ParsedTypeModifiers.validate with symbolic booleans",
+        "CrossHair (z3) exhaustive exploration of an AST-first declaration grammar (8 form families x variations x 9 scopes x 7 ignored decorations; in the thorough tier ordered pairs: every variation next to the first variation of every form, both orders, every scope) on the real parser against independently built ParsedData, plus a type-conformance walk; ParsedTypeModifiers.validate with symbolic booleans",
         "Every program of the grammar inside the bound is parsed by the real parser and must equal the ParsedData built from its abstract syntax (one entry per declarator, in order, in the scope where it was written, same names / types / specifiers / parameters / defaults / template headers / flags), and every object must conform to the published dataclass field types; "
         "validate is confirmed over all paths for all combinations of specifier sets and flags.",
-        "Bound: single declarations (quick: reduced variation pools) and ordered pairs at global scope (thorough); scope depth <=2; fixed identifier spelling. Expressions inside values are C14, deep declarators C02.",
+        "Bound: single declarations (quick: reduced variation pools) and ordered pairs (every variation x one representative per form, both orders) (thorough); scope depth <=2; fixed identifier spelling. Expressions inside values are C14, deep declarators C02.",
         "DESIGN.md 3/C01",
     ),
 }
